@@ -458,6 +458,13 @@ def run_program(prog):
             W.ifaces[i].__bases__ = tuple(W.ifaces[j] for j in nb) or \
                 (W.Interface,)
             return list(W.ifaces[i].__sro__)
+        if k == 'rename':
+            # __name__ is an ordinary attribute; what both implementations
+            # do with an interface that was renamed after it was hashed is
+            # not specified, but it has to be the same thing (seed C10g)
+            iface = W.ifaces[op[1] % len(W.ifaces)]
+            iface.__name__ = iface.__name__ + 'r'
+            return iface.__name__[-3:]
         if k == 'adapt':
             iface = W.ifaces[op[1] % len(W.ifaces)]
             if op[3] == 'absent':
